@@ -73,6 +73,7 @@ def write_evidence(prop, tier, seed, results, wall, wall_runs, jobs, det, known_
             "runs_ok": status["ok"],
             "runs_violation": status["violation"],
             "runs_inconclusive_or_harness_error": status["inconclusive"] + status["harness_error"] + status["premise"],
+            "runs_skipped_not_evaluable": status["skipped"],
             "unlisted_violation_classes": nclasses,
             "replay_files": replay_paths,
             "known_findings_observed": known_observed,
